@@ -15,8 +15,9 @@ mkdir -p "$wt/SEED" && cp -r "$inbox"/* "$wt/SEED/"
 cd "$wt"
 # demos refer to /tmp/seed-<prop>; point them at this worktree
 prop=$(echo "$name" | cut -d- -f1)
-sed -i "s#/tmp/seed6-$prop#$wt#g; s#/tmp/seed5-$prop#$wt#g; s#/tmp/seed4-$prop#$wt#g; s#/tmp/seed3-$prop#$wt#g; s#/tmp/seed2-$prop#$wt#g; s#/tmp/seed-$prop#$wt#g" SEED/*.sh SEED/*.rs 2>/dev/null
-export CARGO_TARGET_DIR="$wt/target" CARGO_NET_OFFLINE=true
+sed -i "s#/tmp/seed8-$prop#$wt#g; s#/tmp/tmp-seed8-$prop#/tmp/tmp-vs-$prop#g; s#/tmp/seed7-$prop#$wt#g; s#/tmp/tmp-seed7-$prop#/tmp/tmp-vs-$prop#g; s#/tmp/seed6-$prop#$wt#g; s#/tmp/seed5-$prop#$wt#g; s#/tmp/seed4-$prop#$wt#g; s#/tmp/seed3-$prop#$wt#g; s#/tmp/seed2-$prop#$wt#g; s#/tmp/seed-$prop#$wt#g" SEED/*.sh SEED/*.rs 2>/dev/null
+mkdir -p "/tmp/tmp-vs-$prop"
+export CARGO_TARGET_DIR="$wt/target" CARGO_NET_OFFLINE=true TMPDIR="/tmp/tmp-vs-$prop"
 mkdir -p "$wt/target"
 bash "SEED/$demo"; d0=$?
 git apply "SEED/$patch"; ap=$?
@@ -29,3 +30,4 @@ set +x
 echo "SUMMARY name=$name patch=$patch demo_without=$d0 apply=$ap suite_exit=$st suite_failed_tests=$fails demo_with=$d1"
 cd /
 git -C /repo worktree remove --force "$wt"
+rm -rf "/tmp/tmp-vs-$prop"
